@@ -92,9 +92,43 @@ for _v in NONBOOL:
                  f'y = [false or {_v}]', f'message(true and {_v})', f'x = false or (false or {_v})', f'if {_v}\nendif']
 
 
+def range_cases():
+    """range(stop) / range(start, stop) / range(start, stop, step): docs/yaml/functions/range.yaml — start >= 0, stop >= start,
+    step >= 1, anything else is an error; the values are start, start + step, ... below stop"""
+    ok, bad = [], []
+    for a in (-1, 0, 2, 5):
+        for b in (None, -1, 0, 1, 2, 5, 9):
+            for c in (None, -1, 0, 1, 2, 3):
+                if b is None and c is not None:
+                    continue
+                txt = 'range(' + ', '.join(str(x) for x in (a, b, c) if x is not None) + ')'
+                start, stop, step = (0, a, 1) if b is None else (a, b, 1 if c is None else c)
+                if start < 0 or stop < start or step < 1:
+                    bad.append(f"foreach i : {txt}\nendforeach")
+                    bad.append(f"x = {txt}")
+                else:
+                    ok.append((txt, list(range(start, stop, step))))
+    # a computed step of zero is as wrong as a literal one
+    bad.append("n = 4\nforeach i : range(0, 3, n % 2)\nendforeach")
+    return ok, bad
+
+
 def _prog_chunk(chunk):
     fails, nt = [], 0
     for kind, payload in chunk:
+        if kind == 'ranges':
+            lines = []
+            for i, (t, v) in enumerate(payload):
+                lines += [f'r{i} = []', f'foreach i : {t}', f'  r{i} += [i]', 'endforeach', f"message('K{i}', r{i})", f"message('K{1000 + i}', {t}[{len(v) - 1}])" if v else f"message('K{1000 + i}', 'empty')"]
+            rc, out, tail = run_program(lines)
+            if rc != 0:
+                fails.append({'case': {'program': 'ranges'}, 'stage': 'run', 'detail': 'a valid range() was rejected: ' + tail[-200:]})
+                continue
+            for i, (t, v) in enumerate(payload):
+                nt += 1
+                if out.get(f'K{i}') != fmt(v) or out.get(f'K{1000 + i}') != (str(v[-1]) if v else 'empty'):
+                    fails.append({'case': {'expression': t}, 'stage': 'value', 'detail': f'foreach over {t} visits {out.get("K%d" % i)!r} (last element by index: {out.get("K%d" % (1000 + i))!r}), the language reference gives {fmt(v)!r}'})
+            continue
         if kind == 'exprs':
             lines = [f"message('K{i}', {t})" for i, (t, v) in enumerate(payload)]
             rc, out, tail = run_program(lines)
@@ -154,13 +188,14 @@ def _rand_chunk(chunk):
 def run(REG, tier, seed, jobs):
     rnd = random.Random(seed)
     ex = gen_exprs(rnd, 0)
-    tasks = [('exprs', ex[i:i + 40]) for i in range(0, len(ex), 40)] + [('values', None)] + [('reject', p) for p in REJECTED]
+    rok, rbad = range_cases()
+    tasks = [('exprs', ex[i:i + 40]) for i in range(0, len(ex), 40)] + [('values', None)] + [('reject', p) for p in REJECTED + rbad] + [('ranges', rok)]
     ev, nt, fails = pmap(_prog_chunk, chunked(iter(tasks), 1), jobs)
     m = 24 if tier == 'quick' else 400
     ev2, nt2, fails2 = pmap(_rand_chunk, chunked(iter([seed * 6700417 + i for i in range(m)]), 1), jobs)
     rpart = {'name': 'C01/bounded/random-expressions-vs-reference-evaluator', 'function': 'meson setup --backend=none (real parser and interpreter)', 'bound': f'{m} programs x 60 random well-typed expressions of depth <= 4 (integer arithmetic with floor division and modulo, unary minus, comparisons, and / or / not, string concatenation and equality, array index / in / not in, a ternary at the top), printed with minimal parentheses',
              'evaluations': ev2, 'distinct_nontrivial': nt2, 'rule': 'every expression', 'exhaustive': False, 'failures': fails2}
-    return {'parts': [rpart, {'name': 'C01/bounded/programs-vs-language-reference', 'function': 'meson setup --backend=none (real interpreter)', 'bound': f'{len(ex)} expressions (all quotient/modulo sign combinations over {INTS}, all indices of a 4-array, precedence, logic, in/not in, escapes), one value-semantics program (12 checks: aliasing with +=, foreach break/continue, short circuit, get_variable), {len(REJECTED)} programs that must be rejected',
+    return {'parts': [rpart, {'name': 'C01/bounded/programs-vs-language-reference', 'function': 'meson setup --backend=none (real interpreter)', 'bound': f'{len(ex)} expressions (all quotient/modulo sign combinations over {INTS}, all indices of a 4-array, precedence, logic, in/not in, escapes), one value-semantics program (12 checks: aliasing with +=, foreach break/continue, short circuit, get_variable), {len(REJECTED)} programs that must be rejected, range() over start x stop x step in small values including negative and zero ({len(rok)} valid progressions compared element-wise, {len(rbad)} invalid calls that must be rejected)',
                        'evaluations': ev, 'distinct_nontrivial': nt, 'rule': 'each expression / check / rejected program counts once', 'exhaustive': False, 'failures': fails}]}
 
 
